@@ -192,6 +192,13 @@ func (schema *Schema) Resolve(typeDef Type) (Type, bool) {
 		return typeDef, true
 	}
 
+	// a reference into another package can not be resolved from this schema:
+	// looking it up by name only would pick an unrelated local object (and
+	// loop forever on `Thing: otherpkg.Thing`).
+	if typeDef.AsRef().ReferredPkg != schema.Package {
+		return Type{}, false
+	}
+
 	referredObj, found := schema.LocateObject(typeDef.AsRef().ReferredType)
 	if !found {
 		return Type{}, false
